@@ -11,7 +11,17 @@ WIDTHS = [1, 10, 50, 33.5, 50.003]
 def make_nodes(labels):
     from labella.node import Node
 
+    if shares_payloads(labels):
+        # several labels for one dated record: labels at the same data position carry the *same* payload object
+        # (seeded/C04o: stubs shared per (layer, position, id(payload)))
+        rec = {}
+        return [Node(l["pos"], l["w"], data=rec.setdefault(l["pos"], {"at": l["pos"]})) for l in labels]
     return [Node(l["pos"], l["w"], data=("L", i)) for i, l in enumerate(labels)]
+
+
+def shares_payloads(labels):
+    """Order-independent rule (C06 permutes the input): about a third of the label sets."""
+    return bool(labels) and (len(labels) + int(min(l["w"] for l in labels))) % 3 == 0
 
 
 def required_width(labels, spacing):
